@@ -6,6 +6,7 @@ import (
 	_ "verif/harness/checks/grpb"
 	_ "verif/harness/checks/grpc"
 	_ "verif/harness/checks/grpd"
+	_ "verif/harness/checks/grpe"
 	_ "verif/harness/checks/sim"
 	"verif/harness/lib"
 )
